@@ -19,7 +19,7 @@ fn expected(layout: &HashMap<String, String>, code: u16, m: u8, numpad: bool) ->
 
 pub fn run(env: &Env) -> Report {
     let dir = env.a.out.clone();
-    let layouts = vec![("probhat", PathBuf::from(PROBHAT)), ("s1", write_s1(&dir)), ("probe", write_probe(&dir))];
+    let layouts = vec![("probhat", PathBuf::from(PROBHAT)), ("s1", write_s1(&dir)), ("probe", write_probe(&dir)), ("sparse", write_probe_sparse(&dir))];
     let mut shards = vec![];
     for (name, p) in &layouts { for numpad in [false, true] { shards.push((name.to_string(), p.clone(), numpad)); } }
     let seed = env.a.seed;
@@ -73,6 +73,6 @@ pub fn run(env: &Env) -> Report {
     let mut rep = Report::new("c04");
     for r in reps { rep.merge(r); }
     rep.exhaustive = true;
-    rep.notes.push("65536 key codes x 7 modifier bytes x numpad on/off x 3 layouts enumerated completely against the implementation".into());
+    rep.notes.push("65536 key codes x 7 modifier bytes x numpad on/off x 4 layouts (Probhat, S1, probe, sparse probe with absent/empty entries in every pattern) enumerated completely against the implementation".into());
     rep
 }
